@@ -19,16 +19,16 @@ Proof. revert i; induction l as [|x r IH]; intros i; cbn; [reflexivity|]. now re
 
 (* the TxIn built in the loop serialises to the blanked input of the specification *)
 Lemma legacy_new_in ht idx code cb i ti ci :
-  standard_hash_type ht = true -> abs_script code = Ok cb -> abs_in ti = Ok ci ->
+  in_u32 ht = true -> abs_script code = Ok cb -> abs_in ti = Ok ci ->
   txin_serialize
     {| i_prev_tx := i_prev_tx ti; i_prev_index := i_prev_index ti;
        i_script := if (i =? idx)%nat then code else empty_script;
        i_sequence := if (i =? idx)%nat then i_sequence ti
-                     else if ht_none_or_single ht then 0 else i_sequence ti;
+                     else if ht_none_or_single5 ht then 0 else i_sequence ti;
        i_witness := [] |} = Ok (ser_txin (fblank cb idx ht i ci)).
 Proof.
   intros Hht Hcode Hci. apply abs_in_inv in Hci as [Hpi [Hsq [s [Hs ->]]]].
-  unfold fblank. rewrite (std_none_or_single _ Hht).
+  unfold fblank. rewrite (base5_none_or_single ht).
   destruct (i =? idx)%nat.
   - now apply txin_serialize_mk.
   - destruct (Legacy.hash_none ht || Legacy.hash_single ht).
@@ -38,7 +38,7 @@ Qed.
 
 (* without ANYONECANPAY: all inputs *)
 Lemma legacy_ins_all ht idx code cb l cl i :
-  standard_hash_type ht = true -> Legacy.anyone_can_pay ht = false ->
+  in_u32 ht = true -> Legacy.anyone_can_pay ht = false ->
   abs_script code = Ok cb -> abs_list abs_in l = Ok cl ->
   legacy_ins ht idx code i l = Ok (flat_map ser_txin (mapi_from (fblank cb idx ht) i cl)).
 Proof.
@@ -62,7 +62,7 @@ Qed.
 
 (* … and only the signed input before *)
 Lemma legacy_ins_acp ht idx code cb l cl i :
-  standard_hash_type ht = true -> Legacy.anyone_can_pay ht = true ->
+  in_u32 ht = true -> Legacy.anyone_can_pay ht = true ->
   abs_script code = Ok cb -> abs_list abs_in l = Ok cl -> (i <= idx)%nat ->
   legacy_ins ht idx code i l =
   Ok (flat_map ser_txin (firstn 1 (skipn (idx - i) (mapi_from (fblank cb idx ht) i cl)))).
@@ -112,13 +112,13 @@ Proof.
 Qed.
 
 Lemma legacy_outs_spec ht idx l cl :
-  standard_hash_type ht = true -> in_u64 (zlen l) = true ->
+  in_u32 ht = true -> in_u64 (zlen l) = true ->
   abs_list abs_out l = Ok cl ->
   (Legacy.hash_single ht = true -> (idx < length l)%nat) ->
   legacy_outs ht idx l = Ok (ser_vec ser_txout (Legacy.tmp_vout cl idx ht)).
 Proof.
   intros Hht Hlen Hcl Hsingle. unfold legacy_outs, Legacy.tmp_vout, ser_vec.
-  rewrite (std_none _ Hht), (std_single _ Hht).
+  rewrite (base5_none ht), (base5_single ht).
   destruct (Legacy.hash_none ht) eqn:En.
   - reflexivity.
   - destruct (Legacy.hash_single ht) eqn:Es.
@@ -138,19 +138,19 @@ Lemma firstn1_skipn_length {A} (l : list A) k :
 Proof. intros H. rewrite firstn_length, skipn_length. lia. Qed.
 
 (* C05 (legacy): the preimage, including the two "return 1" cases *)
-Lemma legacy_eq_spec t ct idx code cb ht :
-  standard_hash_type ht = true -> abs_tx t = Ok ct -> abs_script code = Ok cb ->
+Lemma legacy_eq_spec_any t ct idx code cb ht :
+  in_u32 ht = true -> abs_tx t = Ok ct -> abs_script code = Ok cb ->
   legacy_preimage t idx code ht = Ok (Legacy.preimage cb ct idx ht).
 Proof.
   intros Hht Ht Hcode.
   apply abs_tx_inv in Ht as [Hv [Hlt [Hni [Hno [Hin [Hout [Ev El]]]]]]].
   assert (Li : length (ct_vin ct) = length (t_ins t)) by now apply abs_list_length in Hin.
   assert (Lo : length (ct_vout ct) = length (t_outs t)) by now apply abs_list_length in Hout.
-  unfold legacy_preimage, Legacy.preimage, Legacy.tx_tmp. rewrite Li, Lo, (std_single _ Hht).
+  unfold legacy_preimage, Legacy.preimage, Legacy.tx_tmp. rewrite Li, Lo, (base5_single ht).
   destruct (length (t_ins t) <=? idx)%nat eqn:E1; [reflexivity|].
   apply Nat.leb_gt in E1.
   destruct (Legacy.hash_single ht && (length (t_outs t) <=? idx)%nat) eqn:E2; [reflexivity|].
-  rewrite (le32_ok _ Hv), (le32_ok _ Hlt), (le32_ok _ (std_u32 _ Hht)). cbn [bind].
+  rewrite (le32_ok _ Hv), (le32_ok _ Hlt), (le32_ok _ Hht). cbn [bind].
   rewrite (legacy_outs_spec ht idx _ _ Hht Hno Hout).
   2:{ intros Hs. rewrite Hs in E2. cbn in E2. now apply Nat.leb_gt in E2. }
   rewrite blanked_inputs_eq. unfold mapi. rewrite acp_eq.
@@ -170,3 +170,9 @@ Proof.
       by (rewrite mapi_from_length; exact Li).
     rewrite Ev, El. rewrite <- !app_assoc. reflexivity.
 Qed.
+
+(* … in particular for the seven standard hash types *)
+Lemma legacy_eq_spec t ct idx code cb ht :
+  standard_hash_type ht = true -> abs_tx t = Ok ct -> abs_script code = Ok cb ->
+  legacy_preimage t idx code ht = Ok (Legacy.preimage cb ct idx ht).
+Proof. intros Hht. exact (legacy_eq_spec_any t ct idx code cb ht (std_u32 _ Hht)). Qed.
